@@ -64,9 +64,12 @@ struct Ctx {
   a64::Assembler aa; a64::Builder ab; a64::Compiler ac;
   BaseEmitter* em = nullptr; BaseAssembler* as = nullptr; BaseBuilder* bld = nullptr;
   std::vector<std::string> names;     // names of named labels created so far ("parent:name")
+  bool hloc_holder = false;           // the ErrorHandler is attached to the CodeHolder (emitters inherit it) instead of the emitter
+  bool func_mode = false;             // Compiler: the session's calls form the body of a function (add_func .. end_func, virtual registers)
+  std::vector<Reg> vregs;             // virtual registers created in function mode
 
-  void init(int arch_, int fl_, int hk_, bool lg, bool absb, uint32_t fmt_flags) {
-    arch = arch_; fl = fl_; hk = hk_; with_logger = lg; abs_base = absb;
+  void init(int arch_, int fl_, int hk_, bool lg, bool absb, uint32_t fmt_flags, bool hloc = false, bool fm = false) {
+    arch = arch_; fl = fl_; hk = hk_; with_logger = lg; abs_base = absb; hloc_holder = hloc; func_mode = fm && fl_ == FL_COMPILER;
     Environment env(arch == AR_X86 ? Arch::kX86 : arch == AR_X64 ? Arch::kX64 : Arch::kAArch64);
     code.init(env, absb ? uint64_t(0x10000) : Globals::kNoBaseAddress);
     foreign.init(env);
@@ -75,10 +78,28 @@ struct Ctx {
     if (arch == AR_A64) { em = fl == FL_ASM ? (BaseEmitter*)&aa : fl == FL_BUILDER ? (BaseEmitter*)&ab : (BaseEmitter*)&ac; }
     else { em = fl == FL_ASM ? (BaseEmitter*)&xa : fl == FL_BUILDER ? (BaseEmitter*)&xb : (BaseEmitter*)&xc; }
     if (fl == FL_ASM) as = static_cast<BaseAssembler*>(em); else bld = static_cast<BaseBuilder*>(em);
+    if (hk != H_NONE && hloc_holder) code.set_error_handler(&handler);
     code.attach(em);
-    if (hk != H_NONE) em->set_error_handler(&handler);
+    if (hk != H_NONE && !hloc_holder) em->set_error_handler(&handler);
     if (lg) { logger.set_flags(FormatFlags(fmt_flags)); em->set_logger(&logger); }
     em->add_diagnostic_options(DiagnosticOptions::kValidateAssembler | DiagnosticOptions::kValidateIntermediate);
+    if (func_mode) {
+      int saved = handler.kind; handler.kind = H_RETURN;   // set-up must not throw
+      if (arch == AR_A64) {
+        ac.add_func(FuncSignature::build<void>());
+        for (int i = 0; i < 3; i++) { vregs.push_back(ac.new_gp32()); vregs.push_back(ac.new_gp64()); }
+        for (int i = 0; i < 3; i++) vregs.push_back(ac.new_vec128());
+      } else {
+        xc.add_func(FuncSignature::build<void>());
+        for (int i = 0; i < 3; i++) { vregs.push_back(xc.new_gp32()); if (arch == AR_X64) vregs.push_back(xc.new_gp64()); }
+        for (int i = 0; i < 3; i++) vregs.push_back(xc.new_xmm());
+      }
+      handler.kind = saved; handler.calls = 0;
+    }
+  }
+  void end_func() {
+    if (!func_mode) return;
+    try { if (arch == AR_A64) ac.end_func(); else xc.end_func(); } catch (const Thrown&) {}
   }
 };
 
@@ -148,7 +169,7 @@ static std::string snap_str(const Snap& s) {
 
 // ------------------------------------------------------------------------------------------------ calls
 enum Kind { K_SETOPT, K_SETEXTRA, K_SETCMT, K_RESETSTATE, K_RESETCMT, K_INST, K_NEWLABEL, K_NAMEDLABEL, K_BIND, K_ALIGN, K_EMBED,
-            K_EMBEDLABEL, K_SECTION, K_NEWSECTION, K_REL, K_EMBEDLABELDELTA };
+            K_EMBEDLABEL, K_SECTION, K_NEWSECTION, K_REL, K_EMBEDLABELDELTA, K_MEM };
 struct Call {
   Kind kind; uint32_t a = 0, b = 0; uint64_t c = 0; bool flag = false;
   Operand ops[6]; std::string name; const char* what = ""; uint32_t nform = 6;
@@ -203,6 +224,9 @@ static Res exec(Ctx& c, const Call& k) {
           }
         }
         e = c.em->_emit(id, o[0], o[1], o[2], &o[3]); break; }
+      case K_MEM: {   // add r32, [mem]: the verdict is computed by the model (validator + memory-operand encoder path)
+        Operand none; Operand ext[3];
+        e = c.em->_emit(x86::Inst::kIdAdd, k.ops[0], k.ops[1], none, ext); break; }
       case K_NEWSECTION: { Section* s; e = c.code.new_section(Out(s), k.name.data(), k.name.size(), SectionFlags::kNone, k.a, 0); break; }
     }
   } catch (const Thrown& t) { r.thrown = 1; e = (k.kind == K_NEWLABEL || k.kind == K_NAMEDLABEL) ? Error(0xFFFF) : t.err; }
@@ -500,7 +524,9 @@ static void perturb_operand(Rng& g, Ctx& c, Operand& o, bool keep_kind) {
     switch (g.below(a64 ? 5 : 4)) {
       case 0: case 1: r.set_id(weird_id(g)); break;
       case 2: if (!keep_kind) { OperandSignature s = r.signature(); s.set_reg_type(RegType(g.below(32))); r.set_signature(s); } else r.set_id(weird_id(g)); break;
-      case 3: { OperandSignature s = r.signature(); if (!keep_kind && g.chance(50)) s.set_reg_group(RegGroup(g.below(16))); else s.set_size(g.below(256)); r.set_signature(s); break; }
+      case 3: { OperandSignature s = r.signature(); if (!keep_kind && g.chance(50)) s.set_reg_group(RegGroup(g.below(16)));
+                else s.set_size(c.func_mode ? (g.below(65)) : g.below(256));   // function mode: sizes > 64 are left to the `probe-rwsize` mode (known UB in query_rw_info)
+                r.set_signature(s); break; }
       default: {  // a64 vector element type / index (public Vec setters)
         a64::Vec& v = o.as<a64::Vec>();
         if (g.chance(50)) v.set_element_type(a64::VecElementType(g.below(8))); else v.set_element_index(g.below(16));
@@ -640,6 +666,48 @@ static void sweep_a64() {
   delete cp;
 }
 
+// ------------------------------------------------------------------------------------------------ Compiler function bodies
+// a small set of ordinary instructions over the session's virtual registers (the register allocator must be able to
+// digest what was ACCEPTED; the failing calls come from the perturbations applied afterwards)
+static Operand vreg_of(Rng& g, Ctx& c, RegType t) {
+  std::vector<Reg*> m; for (auto& r : c.vregs) if (r.reg_type() == t) m.push_back(&r);
+  Operand o; if (!m.empty()) o.copy_from(*m[g.below(uint32_t(m.size()))]); return o;
+}
+static bool gen_func_body_inst(Rng& g, Ctx& c, Call& k) {
+  for (auto& o : k.ops) o.reset();
+  k.kind = K_INST; k.nform = 0;
+  if (c.arch == AR_A64) {
+    using namespace a64;
+    bool x = g.chance(50); RegType t = x ? RegType::kGp64 : RegType::kGp32;
+    switch (g.below(6)) {
+      case 0: { static const uint32_t ids[] = { Inst::kIdAdd, Inst::kIdSub, Inst::kIdAnd, Inst::kIdOrr, Inst::kIdEor, Inst::kIdMul };
+                k.a = g.pick(ids); k.ops[0] = vreg_of(g, c, t); k.ops[1] = vreg_of(g, c, t); k.ops[2] = vreg_of(g, c, t); break; }
+      case 1: k.a = Inst::kIdMov; k.ops[0] = vreg_of(g, c, t); k.ops[1] = g.chance(50) ? vreg_of(g, c, t) : mk_imm(int64_t(g.below(4096))); break;
+      case 2: k.a = Inst::kIdAdd; k.ops[0] = vreg_of(g, c, t); k.ops[1] = vreg_of(g, c, t); k.ops[2] = mk_imm(int64_t(g.below(4096))); break;
+      case 3: { k.a = g.chance(50) ? Inst::kIdLdr : Inst::kIdStr; k.ops[0] = vreg_of(g, c, t); Operand b = vreg_of(g, c, RegType::kGp64);
+                Mem m = a64::ptr(b.as<Gp>(), int32_t(g.below(32)) * 8); k.ops[1].copy_from(m); break; }
+      case 4: { k.a = g.chance(50) ? Inst::kIdAdd_v : Inst::kIdFadd_v; for (int i = 0; i < 3; i++) { Operand v = vreg_of(g, c, RegType::kVec128); v.as<Vec>().set_element_type(VecElementType::kS); k.ops[i] = v; } break; }
+      default: k.a = Inst::kIdCmp; k.ops[0] = vreg_of(g, c, t); k.ops[1] = vreg_of(g, c, t); break;
+    }
+  } else {
+    using namespace x86;
+    bool x = c.arch == AR_X64 && g.chance(50); RegType t = x ? RegType::kGp64 : RegType::kGp32;
+    auto mem = [&](uint32_t size) { Operand b = vreg_of(g, c, c.arch == AR_X64 ? RegType::kGp64 : RegType::kGp32); x86::Mem m = x86::ptr(b.as<Gp>(), int32_t(g.below(64)) * 4, size); Operand o; o.copy_from(m); return o; };
+    static const uint32_t alu[] = { Inst::kIdAdd, Inst::kIdSub, Inst::kIdAnd, Inst::kIdOr, Inst::kIdXor, Inst::kIdCmp, Inst::kIdMov, Inst::kIdTest };
+    switch (g.below(7)) {
+      case 0: case 1: k.a = g.pick(alu); k.ops[0] = vreg_of(g, c, t); k.ops[1] = vreg_of(g, c, t); break;
+      case 2: k.a = g.pick(alu); k.ops[0] = vreg_of(g, c, t); k.ops[1] = mk_imm(int64_t(g.below(100000))); break;
+      case 3: k.a = Inst::kIdMov; if (g.chance(50)) { k.ops[0] = vreg_of(g, c, t); k.ops[1] = mem(x ? 8 : 4); } else { k.ops[0] = mem(x ? 8 : 4); k.ops[1] = vreg_of(g, c, t); } break;
+      case 4: k.a = Inst::kIdLea; k.ops[0] = vreg_of(g, c, t); k.ops[1] = mem(0); break;
+      case 5: { static const uint32_t v[] = { Inst::kIdPaddd, Inst::kIdPxor, Inst::kIdAddps, Inst::kIdMovaps, Inst::kIdMulps };
+                k.a = g.pick(v); k.ops[0] = vreg_of(g, c, RegType::kVec128); k.ops[1] = g.chance(75) ? vreg_of(g, c, RegType::kVec128) : mem(16); break; }
+      default: k.a = Inst::kIdImul; k.ops[0] = vreg_of(g, c, t); k.ops[1] = vreg_of(g, c, t); break;
+    }
+  }
+  while (k.nform < 6 && !k.ops[k.nform].is_none()) k.nform++;
+  return k.nform > 0;
+}
+
 // ------------------------------------------------------------------------------------------------ session
 static void run_session(uint64_t seed, uint64_t session, bool verbose) {
   Rng g{ (seed * 0x9E3779B97F4A7C15ull) ^ (session * 0xD1B54A32D192ED03ull) ^ 0xC14C14C14ull };
@@ -647,15 +715,22 @@ static void run_session(uint64_t seed, uint64_t session, bool verbose) {
   int arch = int(g.below(3)); uint32_t f = g.below(100); int fl = f < 64 ? FL_ASM : f < 82 ? FL_BUILDER : FL_COMPILER;
   int hk = int(g.below(4)); bool lg = g.chance(35); bool absb = g.chance(25);
   uint32_t fmt = g.chance(50) ? g.u32() & 0xFF : 0;
+  bool hloc = g.chance(50); bool fm = g.chance(60);
   Ctx* cp = new Ctx(); Ctx& c = *cp;
-  c.init(arch, fl, hk, lg, absb, fmt);
+  c.init(arch, fl, hk, lg, absb, fmt, hloc, fm);
   Snap pre; take(c, pre);
-  printf("N %" PRIu64 " fl=%d arch=%d h=%d log=%d abs=%d | S %s\n", session, fl, arch, hk, int(lg), int(absb), snap_str(pre).c_str());
+  printf("N %" PRIu64 " fl=%d arch=%d h=%d log=%d abs=%d hloc=%d fm=%d | S %s\n", session, fl, arch, hk, int(lg), int(absb), int(hloc), int(c.func_mode), snap_str(pre).c_str());
   std::vector<Call> history; std::vector<Res> results; std::vector<uint8_t> bound_in_builder;
   Call valid_form; bool have_form = false;
   uint32_t ncalls = 40 + g.below(17);
   std::vector<Call> pending;
+  if (c.as && g.chance(35)) {   // a second section from the start: cross-section label references become frequent
+    Call ns; ns.kind = K_NEWSECTION; ns.what = "new_section"; ns.a = 8; ns.name = ".data"; pending.push_back(ns);
+  }
   for (uint32_t ci = 0; ci < ncalls; ci++) {
+    if (pending.empty() && c.as && c.code.section_count() > 1 && g.chance(6)) {   // hop between sections
+      Call sw; sw.kind = K_SECTION; sw.what = "section"; sw.a = g.below(uint32_t(c.code.section_count())); sw.flag = false; pending.push_back(sw);
+    }
     g_verbose = verbose; g_session = session; g_call = ci;
     Call k; k.kind = K_EMBED; char cmd[256]; cmd[0] = 0;
     uint32_t w = g.below(100);
@@ -671,17 +746,51 @@ static void run_session(uint64_t seed, uint64_t session, bool verbose) {
       if (arch == AR_A64) j.c = g.u32();
       pending.push_back(j);
     }
+    if (pending.empty() && c.as && arch != AR_A64 && g.chance(9)) {   // memory-operand path instruction
+      Call z; z.kind = K_RESETSTATE; z.what = "reset_state"; pending.push_back(z);
+      Call mq; mq.kind = K_MEM; mq.what = "mem";
+      bool x64 = arch == AR_X64;
+      uint32_t nat = uint32_t(x64 ? (g.chance(75) ? RegType::kGp64 : RegType::kGp32) : RegType::kGp32);
+      auto pick_type = [&](bool base) -> uint32_t {
+        uint32_t r = g.below(100);
+        if (r < (base ? 62u : 38u)) return nat;
+        if (r < (base ? 76u : 46u)) return uint32_t(RegType::kGp16);
+        if (r < (base ? 90u : 92u)) return 0;
+        if (r < 95) return uint32_t(g.chance(50) ? RegType::kVec128 : RegType::kGp8Lo);
+        uint32_t t = g.below(32); return (t == 1 || t == 31) ? 0 : t; };
+      auto pick_id = [&]() -> uint32_t { static const uint32_t w[] = {4, 5, 12, 13, 8, 15, 16, 31, 32, 255, 256, 0xFFFFFFFFu};
+        return g.chance(85) ? g.below(x64 ? 16 : 8) : g.pick(w); };
+      uint32_t bt = pick_type(true), it = pick_type(false);
+      if (bt == 0 && it == 0 && x64) bt = nat;             // base-less addresses in 64-bit mode are not modelled
+      uint32_t dst = g.chance(85) ? g.below(x64 ? 16 : 8) : pick_id();
+      x86::Mem m;
+      m.set_base_type(RegType(bt)); m.set_base_id(pick_id());
+      m.set_index_type(RegType(it)); m.set_index_id(pick_id());
+      m.set_shift(g.chance(60) ? 0 : g.below(4));
+      { OperandSignature sg = m.signature(); sg.set_field<x86::Mem::kSignatureMemSegmentMask>(g.chance(75) ? 0 : g.below(8)); m.set_signature(sg); }
+      m.set_addr_type(x86::Mem::AddrType(g.chance(70) ? 0 : g.below(4)));
+      { static const uint32_t sz[] = {0, 0, 0, 4, 4, 4, 4, 4, 4, 4, 8, 2, 1, 3, 16}; m.set_size(g.pick(sz)); }
+      int64_t off;
+      switch (g.below(6)) { case 0: off = 0; break; case 1: off = int64_t(g.below(256)) - 128; break; case 2: off = int64_t(g.below(4)) - 2 + (g.chance(50) ? 127 : -128); break;
+                            case 3: off = int32_t(g.u32()); break; case 4: off = int64_t(g.u32() & 0xFFFF) - 0x8000; break; default: off = int64_t(g.next()) >> g.below(40); break; }
+      if (bt == 0) m.set_offset(off); else m.set_offset_lo32(int32_t(off));
+      mq.ops[0] = mk_reg(uint32_t(RegType::kGp32), dst); mq.ops[1].copy_from(m); mq.a = dst;
+      pending.push_back(mq);
+    }
     if (!pending.empty()) {
       k = pending.front(); pending.erase(pending.begin());
       if (k.kind == K_RESETSTATE) snprintf(cmd, sizeof(cmd), "RS");
       else if (k.kind == K_SETOPT) snprintf(cmd, sizeof(cmd), "O %u", k.a);
+      else if (k.kind == K_MEM) {
+        const x86::Mem& m = k.ops[1].as<x86::Mem>();
+        long long off = m.base_type() == RegType::kNone ? (long long)m.offset() : (long long)m.offset_lo32();
+        snprintf(cmd, sizeof(cmd), "K %u %u %u %u %u %u %u %u %u %u %lld", unsigned(x86::Inst::kIdAdd), k.a, unsigned(m.base_type()), m.base_id(), unsigned(m.index_type()), m.index_id(),
+                 m.shift(), unsigned(m.segment_id()), unsigned(m.addr_type()), unsigned(m.size()), off);
+      }
+      else if (k.kind == K_NEWSECTION) snprintf(cmd, sizeof(cmd), "NS %u %u", k.a, unsigned(k.name.size()));
+      else if (k.kind == K_SECTION) snprintf(cmd, sizeof(cmd), "S %u %d", k.a, int(k.flag));
       else {
-        // never reference a label bound in another section (DESIGN 7.14)
-        uint32_t cur = c.as->_section->section_id();
-        if (k.b < nlab && c.code.is_label_bound(k.b) && c.code.label_entry_of(k.b).section_id() != cur) {
-          uint32_t repl = nlab + 3; for (uint32_t j2 = 0; j2 < nlab; j2++) if (!c.code.is_label_bound(j2) || c.code.label_entry_of(j2).section_id() == cur) { repl = j2; break; }
-          k.b = repl;
-        }
+        // labels bound in another section are referenced too (holder-level cross-section fixups, DESIGN 7.14 repaired)
         snprintf(cmd, sizeof(cmd), "J %u %u", k.a, k.b);
       }
     }
@@ -699,7 +808,7 @@ static void run_session(uint64_t seed, uint64_t session, bool verbose) {
       uint32_t cls = g.below(100);
       bool ok = false;
       if (cls < 35 || !have_form) {           // fresh valid form
-        ok = arch == AR_A64 ? gen_a64_valid(g, c, k) : gen_x86_valid(g, c, k);
+        ok = c.func_mode ? gen_func_body_inst(g, c, k) : (arch == AR_A64 ? gen_a64_valid(g, c, k) : gen_x86_valid(g, c, k));
         if (ok) { k.nform = 0; while (k.nform < 6 && !k.ops[k.nform].is_none()) k.nform++; valid_form = k; have_form = true; k.what = "inst-valid"; }
       }
       if (!ok && have_form && cls < 85) {     // perturbation of a valid form (1..3 fields)
@@ -725,7 +834,6 @@ static void run_session(uint64_t seed, uint64_t session, bool verbose) {
         uint32_t n = g.below(7);
         for (uint32_t i = 0; i < n; i++) k.ops[i] = random_operand(g, c);
       }
-      avoid_cross_section_refs(c, k);
     }
     else if (w < 76) { k.kind = K_NEWLABEL; k.what = "new_label"; snprintf(cmd, sizeof(cmd), "L"); }
     else if (w < 79) {
@@ -762,6 +870,21 @@ static void run_session(uint64_t seed, uint64_t session, bool verbose) {
                        snprintf(cmd, sizeof(cmd), "NS %u %u", k.a, nl); }
     else { k.kind = K_EMBED; k.what = "embed"; k.a = 4; snprintf(cmd, sizeof(cmd), "E 4"); }
 
+    if (k.kind == K_INST && c.func_mode) {   // register size fields > 64 are exercised by the `probe-rwsize` mode only (known UB in query_rw_info)
+      for (auto& o : k.ops) if (o.is_reg() && o._signature.size() > 64) { OperandSignature sg = o._signature; sg.set_size(sg.size() % 65); o._signature = sg; }
+      if (arch == AR_A64) {   // likewise left to `probe-rwindex` / `probe-raphys`: element index x size >= 64 (a64 query_rw_info), physical ids 32..255 (RA bit sets)
+        static const uint8_t esz[8] = { 0, 1, 2, 4, 8, 4, 4, 0 };
+        for (auto& o : k.ops) {
+          if (!o.is_reg()) continue;
+          a64::Vec& v = o.as<a64::Vec>();
+          if (v.has_element_index() && v.element_index() * esz[uint32_t(v.element_type()) & 7] >= 64) v.set_element_index(0);
+          if (o.id() >= 32 && o.id() < Operand::kVirtIdMin && o.id() != 63) o.as<Reg>().set_id(o.id() % 32);
+        }
+        for (auto& o : k.ops) if (o.is_mem()) { BaseMem& m = o.as<BaseMem>();
+          if (m.has_base_reg() && m.base_id() >= 32 && m.base_id() < Operand::kVirtIdMin && m.base_id() != 63) m.set_base_id(m.base_id() % 32);
+          if (m.has_index_reg() && m.index_id() >= 32 && m.index_id() < Operand::kVirtIdMin && m.index_id() != 63) m.set_index_id(m.index_id() % 32); }
+      }
+    }
     // bind: how many pending fixups of the label the binding resolves (to compute `patchfail` below)
     uint32_t resolvable = 0;
     if (k.kind == K_BIND && c.as && k.a < nlab && !c.code.is_label_bound(k.a)) {
@@ -777,6 +900,13 @@ static void run_session(uint64_t seed, uint64_t session, bool verbose) {
       if (r.ret == 0 && !r.thrown) {
         uint64_t nb = c.as ? post.sizes[pre.cur] - pre.sizes[pre.cur] : 0;
         long fixl = -1; for (size_t i = 0; i < pre.lpend.size() && i < post.lpend.size(); i++) if (post.lpend[i] > pre.lpend[i]) fixl = long(i);
+        if (fixl < 0 && post.fix > pre.fix) {   // holder-level fixup: the referenced label is bound to another section
+          for (auto& o : k.ops) {
+            uint32_t id = Globals::kInvalidId;
+            if (o.is_label()) id = o.id(); else if (o.is_mem() && o.as<BaseMem>().has_base_label()) id = o.as<BaseMem>().base_id();
+            if (id < pre.lbound.size() && pre.lbound[id] && pre.lsec[id] != pre.cur) { fixl = long(id); info += " xsec-fixup"; break; }
+          }
+        }
         uint64_t drel = post.rel - pre.rel, dadr = post.adr - pre.adr, dsec = post.sizes.size() - pre.sizes.size();
         snprintf(cmd, sizeof(cmd), "I ok %" PRIu64 " %ld %d %" PRIu64 " %" PRIu64 " %" PRIu64, nb, fixl, int(fixl >= 0 && drel > 0), drel, dadr, dsec);
         std::string bad = bad_reg_ids(c, k, pre);
@@ -790,7 +920,9 @@ static void run_session(uint64_t seed, uint64_t session, bool verbose) {
       else snprintf(cmd, sizeof(cmd), "I err %u", r.ret);
       char b[64]; snprintf(b, sizeof(b), " %s id=%u", k.what, k.a); info += b; info += ops_str(k);
     }
-    else if (k.kind == K_REL) { char b[96]; snprintf(b, sizeof(b), " rel kind=%u label=%u c=%" PRIu64, k.a, k.b, k.c); info += b; }
+    else if (k.kind == K_MEM) { info += " mem"; info += ops_str(k); }
+    else if (k.kind == K_REL) { char b[96]; snprintf(b, sizeof(b), " rel kind=%u label=%u c=%" PRIu64, k.a, k.b, k.c); info += b;
+      if (r.ret == 0 && !r.thrown && k.b < pre.lbound.size() && pre.lbound[k.b] && pre.lsec[k.b] != pre.cur && post.fix > pre.fix) info += " xsec-fixup"; }
     else if (k.kind == K_BIND) {
       uint32_t pf = 0;
       if (c.as && r.ret == uint32_t(Error::kInvalidDisplacement)) { uint64_t dec = pre.fix - post.fix; pf = resolvable > dec ? uint32_t(resolvable - dec) : 0; }
@@ -804,44 +936,89 @@ static void run_session(uint64_t seed, uint64_t session, bool verbose) {
 
   // ---- fresh-emitter comparison
   Ctx* fp = new Ctx(); Ctx& fr = *fp;
-  fr.init(arch, fl, hk, lg, absb, fmt);
+  fr.init(arch, fl, hk, lg, absb, fmt, hloc, fm);
   int replay_fail = 0;
   for (size_t i = 0; i < history.size(); i++) {
     const Call& k = history[i]; const Res& r = results[i];
     bool failed = r.ret != 0 || r.thrown;
     if (!failed) { Res r2 = exec(fr, k); if (r2.ret != 0 || r2.thrown) replay_fail++; }
-    else if (k.kind == K_INST || k.kind == K_REL) { Call z; z.kind = K_RESETSTATE; exec(fr, z); }
+    else if (k.kind == K_INST || k.kind == K_REL || k.kind == K_MEM) { Call z; z.kind = K_RESETSTATE; exec(fr, z); }
     else if (k.kind == K_BIND && c.as) {
       if (r.ret == uint32_t(Error::kInvalidDisplacement)) exec(fr, k); else { Call z; z.kind = K_RESETCMT; exec(fr, z); }
     }
   }
   Snap s1, s2; take(c, s1); take(fr, s2);
   std::string a1 = snap_str(s1), a2 = snap_str(s2);
-  int fin_same = 1; uint32_t e1 = 0, e2 = 0; std::string b1, b2;
+  int fin_same = 1; uint32_t e1 = 0, e2 = 0; std::string b1, b2; int fc1 = 0, fc2 = 0;
   if (c.bld) {
-    auto fin = [](Ctx& x) -> uint32_t { try { return uint32_t(x.em->finalize()); } catch (const Thrown& t) { return 0x10000u | uint32_t(t.err); } };
-    e1 = fin(c); e2 = fin(fr);
+    auto fin = [](Ctx& x) -> uint32_t { x.end_func(); x.handler.calls = 0; try { return uint32_t(x.em->finalize()); } catch (const Thrown& t) { return 0x10000u | uint32_t(t.err); } };
+    e1 = fin(c); e2 = fin(fr); fc1 = c.handler.calls; fc2 = fr.handler.calls;
     Snap t1, t2; take(c, t1); take(fr, t2); b1 = snap_str(t1); b2 = snap_str(t2);
     fin_same = (e1 == e2) && (b1 == b2);
   }
-  printf("F %" PRIu64 " same=%d replay_fail=%d fin_same=%d fin=%u/%u\n", session, int(a1 == a2), replay_fail, fin_same, e1, e2);
+  printf("F %" PRIu64 " same=%d replay_fail=%d fin_same=%d fin=%u/%u fcalls=%d/%d\n", session, int(a1 == a2), replay_fail, fin_same, e1, e2, fc1, fc2);
   if (a1 != a2) printf("FD recycled: %s\nFD fresh   : %s\n", a1.c_str(), a2.c_str());
   if (!fin_same) printf("FD fin recycled: %s\nFD fin fresh   : %s\n", b1.c_str(), b2.c_str());
   delete fp; delete cp;
 }
 
+
+// probe: does bind_label refuse BEFORE binding when a pending displacement does not fit (fixes/C14-bind-atomic.patch)?
+static int probe_bind_atomic() {
+  CodeHolder code; code.init(Environment(Arch::kX64)); x86::Assembler a(&code);
+  Label l = a.new_label();
+  a.short_().jmp(l);
+  a.embed(kData, 200);
+  Error e = a.bind(l);
+  if (e != Error::kInvalidDisplacement) return -1;
+  return code.is_label_bound(l) ? 0 : 1;
+}
+
 int main(int argc, char** argv) {
+  if (argc == 2 && !strcmp(argv[1], "probe-rwsize")) {
+    // x86 Compiler: an accepted instruction whose register operand carries a size field > 64 (public setter) reaches
+    // query_rw_info() -> lsb_mask<uint64_t>(size): shift by 64 - size (UBSan aborts here while the defect is present)
+    CodeHolder code; code.init(Environment(Arch::kX64)); x86::Compiler cc(&code);
+    cc.add_diagnostic_options(DiagnosticOptions::kValidateIntermediate);
+    cc.add_func(FuncSignature::build<void>());
+    x86::Gp a = cc.new_gp32(), b = cc.new_gp32();
+    Reg wide = a; { OperandSignature sg = wide.signature(); sg.set_size(199); wide.set_signature(sg); }
+    Operand o0, o1, none; o0.copy_from(wide); o1.copy_from(b); Operand ext[3];
+    Error e1 = cc._emit(x86::Inst::kIdTest, o0, o1, none, ext);
+    cc.end_func();
+    Error e2 = cc.finalize();
+    printf("PROBE rwsize emit=%u finalize=%u\nEND\n", unsigned(e1), unsigned(e2));
+    return 0;
+  }
+  if (argc == 2 && (!strcmp(argv[1], "probe-rwindex") || !strcmp(argv[1], "probe-raphys"))) {
+    // a64 Compiler function body: (rwindex) a register operand carrying an element index with index x element size >= 64
+    // reaches a64 query_rw_info's `<< (index * size)`; (raphys) a physical register id 40 reaches the allocator's 32-bit sets
+    bool rwi = !strcmp(argv[1], "probe-rwindex");
+    CodeHolder code; code.init(Environment(Arch::kAArch64)); a64::Compiler cc(&code);
+    cc.add_func(FuncSignature::build<void>());
+    a64::Gp a = cc.new_gp64(), b = cc.new_gp64();
+    Operand o0, o1, o2, ext[3]; o0.copy_from(a); o1.copy_from(b); o2.copy_from(b);
+    if (rwi) { o1.as<a64::Vec>().set_element_type(a64::VecElementType::kD); o1.as<a64::Vec>().set_element_index(10); }
+    else o2.as<Reg>().set_id(40);
+    Error e1 = cc._emit(a64::Inst::kIdAdd, o0, o1, o2, ext);
+    cc.end_func();
+    Error e2 = cc.finalize();
+    printf("PROBE %s emit=%u finalize=%u\nEND\n", argv[1], unsigned(e1), unsigned(e2));
+    return 0;
+  }
   if (argc == 2 && !strcmp(argv[1], "sweep")) { g_scratch = new Scratch(); sweep_a64(); printf("END\n"); return 0; }
   if (argc < 4) { fprintf(stderr, "usage: c14_harness seed first n [v] | sweep\n"); return 2; }
   uint64_t seed = strtoull(argv[1], nullptr, 10), first = strtoull(argv[2], nullptr, 10), n = strtoull(argv[3], nullptr, 10);
   bool verbose = argc > 4;
   for (size_t i = 0; i < sizeof(kData); i++) kData[i] = uint8_t(i * 37 + 1);
   // numeric values of the constants the model mirrors (compared with the model's `model_constants`)
-  printf("T %u %u %u %u %u %u %u %u %u %u %u %u %u %u %u %u %u %u %u\n", unsigned(Error::kInvalidArgument), unsigned(Error::kInvalidState), unsigned(Error::kInvalidLabel),
+  printf("T %u %u %u %u %u %u %u %u %u %u %u %u %u %u %u %u %u %u %u %u %u %u\n", unsigned(Error::kInvalidArgument), unsigned(Error::kInvalidState), unsigned(Error::kInvalidLabel),
          unsigned(Error::kLabelAlreadyBound), unsigned(Error::kLabelAlreadyDefined), unsigned(Error::kLabelNameTooLong), unsigned(Error::kInvalidLabelName),
          unsigned(Error::kInvalidParentLabel), unsigned(Error::kInvalidSection), unsigned(Error::kInvalidSectionName), unsigned(Error::kInvalidDisplacement),
          unsigned(Error::kInvalidOperandSize), unsigned(Globals::kMaxAlignment), unsigned(Globals::kMaxSectionNameSize), unsigned(Globals::kMaxLabelNameSize),
-         unsigned(AlignMode::kMaxValue), unsigned(Globals::kInvalidId), unsigned(InstOptions::kShortForm), unsigned(InstOptions::kLongForm));
+         unsigned(AlignMode::kMaxValue), unsigned(Globals::kInvalidId), unsigned(InstOptions::kShortForm), unsigned(InstOptions::kLongForm),
+         unsigned(Error::kInvalidRexPrefix), unsigned(Error::kInvalidAddress), unsigned(Error::kInvalidAddressIndex));
+  printf("P bind_atomic=%d\n", probe_bind_atomic());
   g_scratch = new Scratch();
   for (uint64_t s = first; s < first + n; s++) { run_session(seed, s, verbose); fflush(stdout); }
   printf("END\n");
